@@ -30,6 +30,8 @@ type limitSite struct {
 var incRe = regexp.MustCompile(`^\(*([A-Za-z_][A-Za-z0-9_]*)(?: \+ 1\))+$`)
 
 func runC05(c *core.Ctx) {
+	c.Rule("PARSECOV", "no clause the grammar accepts is silently ignored by the parser")
+	checkParserCoverage(c, "PARSECOV")
 	c.Rule("RETRFLAG", "a node that retracts rows of its own declares NoRetractions false")
 	checkRetractionFlags(c, "RETRFLAG")
 	p := c.Prog
